@@ -249,7 +249,7 @@ func c03Gen(rt *rapid.T) c03Case {
 		}
 		c.dt = rapid.SampledFrom(must).Draw(rt, "dtypeMust")
 	}
-	p := genBroadcastPair(4, 5, 256).Draw(rt, "shapes")
+	p := genBroadcastPair(4, 5, 1500).Draw(rt, "shapes")
 	sa, sb := p[0], p[1]
 	c.so, c.compat = p[2], true
 	if rapid.IntRange(0, 5).Draw(rt, "incompatible") == 0 {
